@@ -386,7 +386,33 @@ void do_start(TaskState &ts, const Op &op)
     // the API operation proper: harness bookkeeping (shared id sets, other tasks' records) stays
     // outside, where no call-boundary preemption happens
     InOp io;
-    span = W->tracer->StartSpan(name, opts);
+    // every StartSpan overload that takes options (the sampler and the identity model do not
+    // depend on the attributes or links passed here)
+    switch ((int)((uint64_t)(op.a * 7 + op.b * 3 + op.c + ts.idx) % 5))
+    {
+      case 1: {
+        std::map<std::string, int> attrs{{"a", 1}};
+        span = W->tracer->StartSpan(name, attrs, opts);
+        break;
+      }
+      case 2:
+        span = W->tracer->StartSpan(name, {{"a", 1}}, opts);
+        break;
+      case 3: {
+        std::map<std::string, int> attrs{{"a", 1}};
+        std::vector<std::pair<trace_api::SpanContext, std::map<std::string, int>>> links;
+        span = W->tracer->StartSpan(name, attrs, links, opts);
+        break;
+      }
+      case 4: {
+        std::map<std::string, int> attrs;
+        opentelemetry::common::KeyValueIterableView<std::map<std::string, int>> view(attrs);
+        span = W->tracer->StartSpan(name, view, opts);
+        break;
+      }
+      default:
+        span = W->tracer->StartSpan(name, opts);
+    }
   }
   vsim::yield();
   rec.span    = span;
